@@ -244,6 +244,9 @@ func init() {
 			o := baseOptions(env, i, r)
 			o.Kubelet = sim.KubeletOptions{FailRate: 55, NeverSched: 15, LateDie: 5, Flap: 6, Vanish: 8, ExitOnDelete: 3, SlowStart: 4}
 			o.JobCfg = jobCfg(3600, 900, 900)
+			if i%4 == 3 {
+				o.Faults = &sim.RandomFaults{Pct: 6, Kinds: []sim.FaultKind{sim.F500Before, sim.F409Before}, R: rand.New(rand.NewSource(o.Seed ^ 0xf8)), Until: 300, ReadPct: 25}
+			}
 			return simCase{Opt: o, Prof: sim.Profile{MaxJobConfigs: 1, MinJobs: 1, MaxJobs: 4, OwnedBias: 30, Policies: []execution.ConcurrencyPolicy{execution.ConcurrencyPolicyAllow}, Parallel: 60,
 				MaxAttempts: 5, MaxRetryDelay: 20, KillPct: 15, DeletePct: 10, StartAfterPct: 5, PendingTimeout: []int64{-1, 0, 10, 30}, TTL: []int64{30, 200}}}
 		},
@@ -257,6 +260,9 @@ func init() {
 		Build: func(env *core.Env, i int, r *rand.Rand) simCase {
 			o := baseOptions(env, i, r)
 			o.Kubelet = sim.KubeletOptions{FailRate: 30 + r.Intn(50), NeverSched: 12, LateDie: 6, Flap: 8, Vanish: 8, ExitOnDelete: 3, SlowStart: 4}
+			if i%4 == 3 {
+				o.Faults = &sim.RandomFaults{Pct: 6, Kinds: []sim.FaultKind{sim.F500Before, sim.F409Before}, R: rand.New(rand.NewSource(o.Seed ^ 0xfa1)), Until: 300, ReadPct: 25}
+			}
 			return simCase{Opt: o, Prof: sim.Profile{MaxJobConfigs: 1, MinJobs: 1, MaxJobs: 4, OwnedBias: 25, Policies: []execution.ConcurrencyPolicy{execution.ConcurrencyPolicyAllow}, Parallel: 70,
 				MaxAttempts: 4, MaxRetryDelay: 8, KillPct: 8, DeletePct: 5, PendingTimeout: []int64{-1, 10, 25}, TTL: []int64{60, 300}}}
 		},
@@ -273,7 +279,7 @@ func init() {
 			o.Kubelet = sim.KubeletOptions{FailRate: 45, NeverSched: 15, LateDie: 5, NeverDie: 10, Flap: 3, Vanish: 6, ExitOnDelete: 3, SlowStart: 6}
 			o.JobCfg = jobCfg(3600, 900, 40)
 			if i%4 == 2 {
-				o.Faults = &sim.RandomFaults{Pct: 10, Kinds: []sim.FaultKind{sim.F500Before, sim.F409Before, sim.FCrashBefore}, R: rand.New(rand.NewSource(o.Seed ^ 0xfc)), Until: 300, Crashes: 1}
+				o.Faults = &sim.RandomFaults{Pct: 10, Kinds: []sim.FaultKind{sim.F500Before, sim.F409Before, sim.FCrashBefore}, R: rand.New(rand.NewSource(o.Seed ^ 0xfc)), Until: 300, Crashes: 1, ReadPct: 20}
 			}
 			return simCase{Opt: o, Prof: sim.Profile{MaxJobConfigs: 2, MinJobs: 1, MaxJobs: 5, OwnedBias: 50, Policies: allPolicies, MaxConcurrency: 2, Parallel: 50,
 				MaxAttempts: 3, MaxRetryDelay: 10, KillPct: 30, FutureKill: 40, ClearKillPct: 25, DeletePct: 25, StartAfterPct: 20, PendingTimeout: []int64{-1, 0, 8, 25}, TTL: []int64{20, 100}}}
